@@ -16,22 +16,31 @@ against two context assignments, and what the receiver got is compared with
     aggregation by Python semantics; documented-invalid forms -> TemplateSyntaxError;
   * the layout-metamorphic oracle: all layouts and both seams agree (type-exact).
 
-Parts
-  A leaf x frame   every leaf (atoms x filter chains) in every syntactic frame (positional, kwarg,
-                   special / aggregate key, first / middle / last list entry, dict key / value,
-                   spread operand at each level, depth-2 frames), main + one-hot layouts
-  B structure      all values with <= N nodes and depth <= 3 over a small leaf alphabet, plus all
-                   values with <= 2 entries per container to depth 2 (1-2 leaf fillers)
-  C arguments      all 1- and 2-argument lists (thorough: 3) over positional / keyword / special
-                   key / aggregate key / spread / flag items
-  D invalid        each documented-invalid production at every container position of small
-                   shapes; must raise TemplateSyntaxError in every layout through both seams
+Parts (quick / thorough)
+  A leaf x frame   every leaf (27 atoms x 11 filter chains, nested-template atoms unfiltered: 227) in every frame (33:
+                   positional, kwarg, special / aggregate key, first / middle / last list entry,
+                   dict key / value, spread operand at each level, depth-2 frames); main layouts +
+                   one-hot layouts (thorough: also CRLF+tab one-hots)
+  B structure      all values with <= 4 / <= 5 nodes and depth <= 3 over 4 leaves, 2 keys, 1+1
+                   spread variables (thorough: also <= 4 nodes over 6 leaves, 3 keys, 2+2 spread
+                   variables); plus all values with <= 2 entries per container to depth 2 over 1 / 2
+                   leaf fillers (thorough: also the 3-entry shapes: outer <= 2 x inner <= 3 and
+                   outer 3 x inner <= 1)
+  C arguments      all 1- and 2-argument lists over 103 items (positional values of <= 2 nodes,
+                   10 keys incl. special / aggregate x 6 values, spreads of variables and literals,
+                   the `only` flag); thorough: all 3-argument lists over the 34 smallest items
+  D invalid        each documented-invalid production (spread inside a filter, `...` / `*` / `**`
+                   with the wrong container, spread on a dict key / value position, `key=...x`,
+                   `*x` / `**x` on the tag, aggregate + plain clash) at every container position of
+                   small shapes (523 forms); TemplateSyntaxError in every layout through both seams
 
 Excluded / agnostic corners (the statement does not fix them):
   * whitespace around `=` and after `...` (significant, as in stock Django / as documented);
     whitespace characters other than space, tab, CR, LF, FF;
   * filters applied to a nested-template string (`"{{ a }}"|upper`) and filter arguments that
-    are nested-template strings; backslash escapes inside strings; strings holding both quotes;
+    are nested-template strings; backslash escapes other than an escaped quote (`"a\\\\"` is a
+    TemplateSyntaxError here, `a\\` in stock Django - not covered by the statement); strings holding
+    both quote characters unescaped;
   * dict keys with a filter argument (`{"k"|default:"x": 1}`, documented as unsupported);
   * spreading a non-iterable into a list / a non-mapping into a dict / a mapping with
     non-string keys onto the tag; unhashable dict keys; keys starting with `:`;
@@ -48,7 +57,6 @@ Excluded / agnostic corners (the statement does not fix them):
 from __future__ import annotations
 
 import itertools
-from collections import Counter
 
 from mc import boot, par
 from mc import c02_gen as g
@@ -407,8 +415,8 @@ def stream_C(tier, marker):
         for b in items:
             yield ("C", (a, b))
     if tier == "thorough":
-        keep_vals = (g.leaf(g.I(1)), g.leaf(g.S("a b" + marker)), ("list", ()))
-        small = [it for it in items if _item_size(it) <= 1 and (it[0] != "kw" or it[2] in keep_vals[:2])]
+        keep_vals = (g.leaf(g.I(1)), g.leaf(g.S("a b" + marker)))
+        small = [it for it in items if _item_size(it) <= 1 and (it[0] != "kw" or it[2] in keep_vals)]
         for a in small:
             for b in small:
                 for c in small:
@@ -444,7 +452,7 @@ def _layouts(kind, tier="thorough"):
     if kind == "main":
         return main
     if kind == "main-lite":
-        return [l for l in main if l.name in ("compact", "padded", "newline", "all")]
+        return [lay for lay in main if lay.name in ("compact", "padded", "newline", "all")]
     return main + g.onehot_layouts(tier)
 
 
